@@ -71,6 +71,8 @@ class Ctx:
         self.seed = seed
         self.rng = random.Random(seed)
         self.t0 = time.time()
+        self.cpu0 = time.process_time()
+        self.threads = 1
         self.budget_s = budget_s
         self.evaluations = 0
         self._distinct = set()
@@ -100,6 +102,13 @@ class Ctx:
         return self.tier == "quick"
 
     def elapsed(self):
+        """budget clock: CPU time of this process (so that the explored universe does not shrink when the machine is busy), never less than a
+        sixth of the wall time (a starved or blocked run still ends well inside the stage timeout)"""
+        wall = time.time() - self.t0
+        cpu = (time.process_time() - self.cpu0) / self.threads
+        return min(wall, max(cpu, wall / 6.0))
+
+    def wall(self):
         return time.time() - self.t0
 
     def out_of_time(self, fraction=1.0):
@@ -161,7 +170,7 @@ class Ctx:
             "violations": self.violations,
             "errors": self.errors,
             "notes": self.notes,
-            "wall_s": round(self.elapsed(), 2),
+            "wall_s": round(self.wall(), 2),
         }
 
 
